@@ -153,7 +153,7 @@ func runC05(r *Run) {
 	defer host.close()
 	_, hostPort := splitHostPort(host.addr)
 	portUser := fmt.Sprint(hostPort) // a user whose name is the port of "his" desktop host
-	users := map[string]string{"alice": "wonderland", "bob": "builder", "nopass": "", portUser: "port-user-password"}
+	users := map[string]string{"alice": "wonderland", "bob": "builder", "nopass": "", portUser: "port-user-password", "longpw": strings.Repeat("correct horse battery staple ", 320)}
 	sock := filepath.Join(dir, "auth.sock")
 	fa := startFakeAuth(sock, users)
 	defer fa.stop()
@@ -245,6 +245,14 @@ func runC05(r *Run) {
 			{"RDG_OUT_DATA", []string{"Basic " + b64("alice:builder")}, true, "basic-other-users-password", true},
 			{"RDG_OUT_DATA", []string{"Basic " + b64("alice:wonderland:x")}, true, "basic-extra-colon", true},
 			{"GET", []string{"Basic " + b64("alicew:onderland")}, false, "get-basic-shifted-split", true},
+			// one scheme's keyword inside another scheme's payload (the route table matches keywords anywhere in the value)
+			{"RDG_OUT_DATA", []string{"NTLM BasicAAA"}, true, "ntlm-payload-spelling-basic", true},
+			{"RDG_OUT_DATA", []string{"Negotiate AABasicAA"}, true, "negotiate-payload-spelling-basic", true},
+			{"RDG_OUT_DATA", []string{"Basic " + b64("al:52\u0300")}, true, "basic-payload-spelling-ntlm", true}, // YWw6NTLMgA==
+			{"RDG_OUT_DATA", []string{"Basic " + b64("Negotiate:NTLM")}, true, "basic-credentials-naming-schemes", true},
+			// confirmed credentials that make a request head of 13 KB
+			{"RDG_OUT_DATA", []string{"Basic " + b64("longpw:"+users["longpw"])}, true, "basic-right-long", true},
+			{"RDG_OUT_DATA", []string{"Basic " + b64("longpw:"+users["longpw"][:9000]+"x")}, true, "basic-wrong-long", true},
 		}
 		run := func(q c05Req, conn net.Conn, br *bufio.Reader) (rawResp, string, net.Conn, *bufio.Reader) {
 			if conn == nil || q.newConn {
@@ -354,8 +362,20 @@ func runC05(r *Run) {
 		for _, q := range reqs {
 			var resp rawResp
 			var nt string
+			fa.mu.Lock()
+			logBefore := len(fa.log)
+			fa.mu.Unlock()
 			resp, nt, conn, br = run(q, conn, br)
 			check(q, resp, nt)
+			// the authentication backend is asked only on behalf of an enabled mechanism
+			fa.mu.Lock()
+			added := append([]string{}, fa.log[logBefore:]...)
+			fa.mu.Unlock()
+			for _, e := range added {
+				if (strings.HasPrefix(e, "ntlm:") && !ntlmOn) || (strings.HasPrefix(e, "basic:") && !local) {
+					r.Violation("c05-disabled-backend", "credentials of a mechanism that is not enabled were passed to the authentication backend", fmt.Sprintf("mechanisms: %s\nrequest: %s with Authorization %q (%s)\nbackend call: %s\nanswer: status %d WWW-Authenticate %q\n", strings.Join(mechs, "+"), q.method, q.auths, q.class, e, resp.status, resp.wwwAuth))
+				}
+			}
 			if resp.upgraded && conn != nil {
 				conn.Close()
 				conn = nil
